@@ -118,6 +118,8 @@ def rerun(names, tier):
         if not os.path.exists(mp):
             continue
         meta = json.load(open(mp))
+        if os.environ.get("SEEDED_SKIP_THOROUGH") and meta.get("tier") == "thorough":
+            print(name, "skipped (thorough tier only: verified on its own)"); sys.stdout.flush(); continue
         d = scratch(name)
         try:
             rc, out = sh(["patch", "-p1", "-i", os.path.join(dst, "patch.diff")], cwd=d)
@@ -127,7 +129,7 @@ def rerun(names, tier):
                 meta.setdefault("checks", {})[p] = run_check(d, p, meta.get("tier", tier), meta.get("runs_scale"))
             meta["detected_by_own_check"] = meta["checks"][meta["property"]]["exit"] == 1
             json.dump(meta, open(mp, "w"), indent=1)
-            print(name, {p: v["exit"] for p, v in meta["checks"].items()}, meta["checks"][meta["property"]]["keys"][:1])
+            print(name, {p: v["exit"] for p, v in meta["checks"].items()}, meta["checks"][meta["property"]]["keys"][:1]); sys.stdout.flush()
         finally:
             shutil.rmtree(d, ignore_errors=True)
 
